@@ -347,6 +347,29 @@ def _check_protect(model, ph, r):
                 q = [k for k in c.keywords if k.arg == 'quote']
                 if not q or T.is_const(q[0].value, True):
                     order += [('&', '&amp;', s), ('<', '&lt;', s), ('>', '&gt;', s), ('"', '&quot;', s)]
+        elif isinstance(s, ast.For) and isinstance(s.target, ast.Tuple) and len(s.target.elts) == 2 \
+                and all(isinstance(x, ast.Name) for x in s.target.elts) and len(s.body) == 1 \
+                and isinstance(s.body[0], ast.Assign) and isinstance(s.body[0].value, ast.Call):
+            # table-driven form: for (char, protected) in TABLE: s = s.replace(char, protected)
+            a, b = s.target.elts[0].id, s.target.elts[1].id
+            c = s.body[0].value
+            args = [unparse(x) for x in c.args]
+            is_repl = isinstance(c.func, ast.Attribute) and c.func.attr == 'replace' and unparse(c.func.value) == var \
+                and args == [a, b]
+            rc = model.resolve_call(c)
+            is_sub = rc and rc[0] == 'ext' and rc[1] == 're.sub' and args == [a, b, var]
+            tab = s.iter
+            if isinstance(tab, ast.Name):
+                g = ph.mod.globals.get(tab.id)
+                tab = g[0] if g else None
+                if tab is None:
+                    vals = T.resolve_local(model, s.iter)
+                    tab = vals[0] if len(vals) == 1 else None
+            if (is_repl or is_sub) and isinstance(tab, (ast.Tuple, ast.List)):
+                for el in tab.elts:
+                    if isinstance(el, (ast.Tuple, ast.List)) and len(el.elts) == 2 and isinstance(el.elts[0], ast.Constant):
+                        rep = el.elts[1].value if isinstance(el.elts[1], ast.Constant) else unparse(el.elts[1])
+                        order.append((el.elts[0].value, rep, s))
         elif isinstance(s, ast.If):
             # a conditional path that returns skips the replacements below it
             for n in ast.walk(s):
@@ -380,6 +403,48 @@ def _check_protect(model, ph, r):
 
 
 # ------------------------------------------------------------------------------ TH2 / LS2
+def html_phases(model):
+    """the three phases of genhtml.generate_html, found by what they do, not by their position:
+       collect - the loop over the matches that fills the highlight records (X.beglin = ...), in
+                 generate_html itself or in a helper of the module that generate_html calls
+       group   - the loop of generate_html that reads .beglin / .endlin to form regions
+       emit    - the last loop of generate_html
+    each entry is (Func, For node) or None"""
+    f = model.func('shell.genhtml.generate_html')
+
+    def loops_of(fn):
+        return [s for s in fn.node.body if isinstance(s, ast.For)]
+
+    def fills(lp):
+        # the loop that reads the offset of every match and fills the records
+        return any(isinstance(x, ast.Attribute) and x.attr == 'beglin' and isinstance(x.ctx, ast.Store)
+                   for x in ast.walk(lp)) and any(
+            isinstance(x, ast.Constant) and x.value == 'offset' for x in ast.walk(lp))
+    out = {'collect': None, 'group': None, 'emit': None, 'root': f}
+    mine = loops_of(f)
+    for lp in mine:
+        if fills(lp) and out['collect'] is None:
+            out['collect'] = (f, lp)
+    if out['collect'] is None:
+        for c in ast.walk(f.node):
+            if isinstance(c, ast.Call):
+                rc = model.resolve_call(c)
+                if rc and rc[0] == 'func' and rc[1].mod is f.mod and isinstance(rc[1].node.body, list):
+                    for lp in loops_of(rc[1]):
+                        if fills(lp) and out['collect'] is None:
+                            out['collect'] = (rc[1], lp)
+    rest = [lp for lp in mine if not (out['collect'] and lp is out['collect'][1])]
+    for lp in rest:
+        if out['group'] is None and any(isinstance(x, ast.Attribute) and x.attr in ('beglin', 'endlin')
+                                         and isinstance(x.ctx, ast.Load) for x in ast.walk(lp)) \
+                and any(isinstance(x, ast.Call) and T.call_name(x) == 'append' for x in ast.walk(lp)):
+            out['group'] = (f, lp)
+    rest = [lp for lp in rest if not (out['group'] and lp is out['group'][1])]
+    if rest:
+        out['emit'] = (f, rest[-1])
+    return out
+
+
 def th2(model):
     r = RuleResult('TH2', 'generate_html: every match yields one highlight entry, every entry is '
                    'put into exactly one region, and in the region loop every path emits the '
@@ -390,10 +455,10 @@ def th2(model):
     f = model.func('shell.genhtml.generate_html')
     tex = f.params[0]
     body = f.node.body
-    loops = [s for s in body if isinstance(s, ast.For)]
-    if len(loops) < 3:
-        raise AnalysisError('anchor vanished: the three loops of generate_html')
-    first, second, third = loops[0], loops[1], loops[2]
+    ph = html_phases(model)
+    if not (ph['collect'] and ph['group'] and ph['emit']):
+        raise AnalysisError('anchor vanished: the three phases (collect, group, emit) of generate_html')
+    first, second, third = ph['collect'][1], ph['group'][1], ph['emit'][1]
     # (1) every match -> one entry
     coll = None
     for n in ast.walk(first):
@@ -401,7 +466,12 @@ def th2(model):
             coll = n
     conts = [n for n in ast.walk(first) if isinstance(n, ast.Continue)]
     last_stmt = first.body[-1]
-    if coll is not None and isinstance(last_stmt, ast.Expr) and last_stmt.value is coll and not conts:
+    yields = [n for n in ast.walk(first) if isinstance(n, ast.Yield)]
+    if coll is None and len(yields) == 1 and isinstance(last_stmt, ast.Expr) and last_stmt.value is yields[0] \
+            and not conts:
+        r.ok(first, 'the generator over the matches ends with one unconditional yield and never skips',
+             nontrivial=True)
+    elif coll is not None and isinstance(last_stmt, ast.Expr) and last_stmt.value is coll and not conts:
         r.ok(first, 'the loop over the matches ends with one unconditional append and never skips',
              nontrivial=True)
     else:
